@@ -118,8 +118,13 @@ class Pool:
         if kind == "ws":
             return ["   ", "\t", " \t  "][choice % 3]
         if kind == "txt":
+            if choice % 8 == 6:
+                # a UTF-8 byte order mark in front of an object line (JSON does not allow one): not a JSON object line on any channel
+                return "\ufeff" + self.obj_line("cmd", choice, idn)
+            if choice % 8 == 7:
+                return "\ufeff"
             return ["plain text %s with secret alice@example.com" % tok, "%s {not json" % tok, "}{ %s" % tok, "\"%s" % tok,
-                    "{\"a\":%s}" % tok, "nul %s" % tok][choice % 6]
+                    "{\"a\":%s}" % tok, "nul %s" % tok][choice % 8]
         if kind == "legacy":
             return "2024-05-30T09:47:39.001+0000 I COMMAND  [conn%d] command dbZn.collZn command: find { find: \"collZn\", filter: { name: \"%s\" } } 120ms" % (idn, tok)
         if kind == "arr":
